@@ -151,10 +151,13 @@ func (c *ctx) c16TmuxNoisy(ty string, pl []byte, wantJunk, wantStatus, wantWrap,
 	kinds := map[string]bool{}
 	marker := "#" + ty + ":"
 	inner := append([]byte(ty+":"), pl...)
+	// the text in front may echo an earlier line with the same marker, provided no status
+	// string splits this line's marker
+	echo := wantJunk > 0 && c.rng.Intn(3) == 0
 	// status pairs anywhere in ty:pl (positions 0..len), also several at one place
 	var s []byte
 	for i := 0; i <= len(inner); i++ {
-		for wantStatus > 0 && c.rng.Intn(len(inner)+1) == 0 {
+		for wantStatus > 0 && c.rng.Intn(len(inner)+1) == 0 && !(echo && i <= len(ty)) {
 			s = append(s, c.c16StatusPair()...)
 			kinds["status"] = true
 			if i <= len(ty) {
@@ -195,6 +198,16 @@ func (c *ctx) c16TmuxNoisy(ty string, pl []byte, wantJunk, wantStatus, wantWrap,
 				if other != ty {
 					junk = append(junk, []byte("#"+other+":abc")...)
 				}
+			}
+			if echo {
+				pos := c.rng.Intn(len(junk) + 1)
+				old := append([]byte(marker), c.c16Payload(6)...)
+				if c.rng.Intn(2) == 0 {
+					old = append(old, '\r', '\n')
+				}
+				junk = append(junk[:pos], append(old, junk[pos:]...)...)
+				kinds["junk-with-marker"] = true
+				break
 			}
 			if !bytes.Contains(junk, []byte(marker)) {
 				break
@@ -588,7 +601,7 @@ func c16GenNoise(c *ctx) {
 			}
 		}
 	}
-	for i := 0; i < c.pick(1500, 40000); i++ {
+	for i := 0; i < c.pick(6000, 60000); i++ {
 		ty := c16Types[c.rng.Intn(len(c16Types))]
 		tmuxCase(ty, c.c16Payload(40), c.rng.Intn(2), c.rng.Intn(4), c.rng.Intn(6), c.rng.Intn(5)/4, "random")
 	}
@@ -598,6 +611,10 @@ func c16GenNoise(c *ctx) {
 		b := make([]byte, n)
 		for j := range b {
 			b[j] = c.c16Pick("#A:a\r\n\n\x1bP=\\\x03b#")
+		}
+		for k := c.rng.Intn(4); k > 0; k-- { // several markers in one line
+			pos := c.rng.Intn(len(b) + 1)
+			b = append(b[:pos], append([]byte("#A:"), b[pos:]...)...)
 		}
 		b = append(b, '\n')
 		emitJunk(true, c.split(b, 1+c.rng.Intn(5)), []string{"A", "A", "A", "A"}, c.rng.Intn(2) == 0, c.rng.Intn(2) == 0)
@@ -693,10 +710,10 @@ func c16GenNoise(c *ctx) {
 			c.count("win:known-" + k.key)
 		}
 	}
-	for i := 0; i < c.pick(4000, 100000); i++ {
+	for i := 0; i < c.pick(20000, 200000); i++ {
 		winCase(i%4, false)
 	}
-	for i := 0; i < c.pick(600, 15000); i++ {
+	for i := 0; i < c.pick(3000, 30000); i++ {
 		winCase(3, true)
 	}
 	// every insertion position of each single documented kind on a fixed line
@@ -757,7 +774,7 @@ func c16GenNoise(c *ctx) {
 		}
 	}
 	// byte soup over the bytes the state machine distinguishes: correspondence only
-	for i := 0; i < c.pick(6000, 150000); i++ {
+	for i := 0; i < c.pick(30000, 300000); i++ {
 		n := c.rng.Intn(30)
 		b := make([]byte, n)
 		for j := range b {
